@@ -1109,11 +1109,8 @@ func c13Rec(w *World, r *Result) {
 		case len(names) == 1 && strings.Contains(names[0], "evaluateExpression") || strings.Contains(label, "transpiler.evaluate"):
 			r.Ok(rule, key, pos, "recursion over the finite tree built by the parser")
 		default:
-			// reviewed: recursion along the recorded call edges
-			if reason, ok := map[string]string{
-				"Parser.getUsedFuncs": "recursion along recorded call edges; an edge always points to a function that was already defined when the caller's body was parsed (lookup at call time), so the relation is acyclic",
-			}[names[0]]; ok && len(names) == 1 {
-				r.Triv(rule, key, pos, reason)
+			if len(comp) == 1 && entryGuardedRecursion(fns[comp[0]]) {
+				r.Ok(rule, key, pos, "recursion over a relation guarded by a visited set: the function returns at once for an argument already in the collection it is given, adds the argument before recursing and passes the grown collection on")
 			} else if allIn(names, "transpiler.") {
 				r.Ok(rule, key, pos, "recursion over the finite tree built by the parser")
 			} else {
@@ -1518,4 +1515,126 @@ func countingLoop(header *ssa.BasicBlock) bool {
 		}
 	}
 	return false
+}
+
+// entryGuardedRecursion: fn(x, visited) returns immediately when visited contains x,
+// otherwise appends x to visited and passes the result to every recursive call.
+func entryGuardedRecursion(fn *ssa.Function) bool {
+	if len(fn.Blocks) == 0 {
+		return false
+	}
+	// the entry test: If Contains(collParam, keyParam) → return
+	var coll, key *ssa.Parameter
+	var absent *ssa.BasicBlock
+	for _, b := range fn.Blocks {
+		c, neg := condOf(b)
+		call, ok := c.(*ssa.Call)
+		if !ok || len(call.Call.Args) != 2 {
+			continue
+		}
+		if n := calleeName(call); !strings.HasPrefix(n, "slices.Contains") {
+			continue
+		}
+		cp, ok1 := call.Call.Args[0].(*ssa.Parameter)
+		kp, ok2 := call.Call.Args[1].(*ssa.Parameter)
+		if !ok1 || !ok2 || !b.Dominates(fn.Blocks[len(fn.Blocks)-1]) && b != fn.Blocks[0] {
+			continue
+		}
+		present, abs := b.Succs[0], b.Succs[1]
+		if neg {
+			present, abs = abs, present
+		}
+		if !leadsToReturn(present) {
+			continue
+		}
+		coll, key, absent = cp, kp, abs
+	}
+	if coll == nil {
+		return false
+	}
+	collIdx := -1
+	for i, p := range fn.Params {
+		if p == coll {
+			collIdx = i
+		}
+	}
+	// grown collection: append(coll, key) and everything derived from it through phis / recursive results
+	grown := map[ssa.Value]bool{}
+	for _, b := range fn.Blocks {
+		for _, ins := range b.Instrs {
+			if c, ok := ins.(*ssa.Call); ok {
+				if bi, ok := c.Call.Value.(*ssa.Builtin); ok && bi.Name() == "append" && c.Call.Args[0] == coll {
+					for _, e := range variadicElems(c.Call.Args[1]) {
+						if e == key {
+							grown[c] = true
+						}
+					}
+				}
+			}
+		}
+	}
+	if len(grown) == 0 {
+		return false
+	}
+	for changed := true; changed; {
+		changed = false
+		for _, b := range fn.Blocks {
+			for _, ins := range b.Instrs {
+				switch x := ins.(type) {
+				case *ssa.Phi:
+					all := len(x.Edges) > 0
+					for _, e := range x.Edges {
+						if !grown[e] {
+							all = false
+						}
+					}
+					if all && !grown[x] {
+						grown[x] = true
+						changed = true
+					}
+				case *ssa.Call:
+					if x.Call.StaticCallee() == fn && collIdx < len(x.Call.Args) && grown[x.Call.Args[collIdx]] && !grown[x] {
+						grown[x] = true // the callee returns its (grown) collection
+						changed = true
+					}
+				}
+			}
+		}
+	}
+	// phis at loop headers: (grown-before-loop, result of recursive call) — iterate optimistic
+	for iter := 0; iter < 3; iter++ {
+		for _, b := range fn.Blocks {
+			for _, ins := range b.Instrs {
+				if x, ok := ins.(*ssa.Phi); ok && !grown[x] {
+					okAll := true
+					for _, e := range x.Edges {
+						if grown[e] {
+							continue
+						}
+						if c, ok := e.(*ssa.Call); ok && c.Call.StaticCallee() == fn && collIdx < len(c.Call.Args) && c.Call.Args[collIdx] == x {
+							continue // carried through the recursive call
+						}
+						okAll = false
+					}
+					if okAll {
+						grown[x] = true
+					}
+				}
+			}
+		}
+	}
+	n := 0
+	for _, b := range fn.Blocks {
+		for _, ins := range b.Instrs {
+			c, ok := ins.(*ssa.Call)
+			if !ok || c.Call.StaticCallee() != fn {
+				continue
+			}
+			n++
+			if !absent.Dominates(b) || collIdx >= len(c.Call.Args) || !grown[c.Call.Args[collIdx]] {
+				return false
+			}
+		}
+	}
+	return n > 0
 }
